@@ -37,6 +37,11 @@ def f_tensor(data, *a, dtype=None, device=None, requires_grad=False, **kw):
     if _has_sym(data):
         if isinstance(data, st.SymTensor):
             r = st.SymTensor(data._p.copy(), dtype or data.dtype)
+            if cx.CUR is not None and cx.CUR.env.get("track_grad"):
+                from . import autograd as ag
+
+                ag.cut_inplace(r)  # torch.tensor(t) copy-constructs: the result is detached from t's graph
+            r._nocut = True
         else:
             r = st.SymTensor(st._objarr(data), dtype)
         if requires_grad:
